@@ -1433,6 +1433,14 @@ func (d *Data) storeAndUpdate(ctx *datastore.VersionedCtx, keyStr string, newDat
 	if _, found := newData["bodyid_time"]; found {
 		return fmt.Errorf("'bodyid_time' field not allowed")
 	}
+	// the _user and _time companions of a field are strings wherever they are used
+	for field, value := range newData {
+		if strings.HasSuffix(field, "_time") || strings.HasSuffix(field, "_user") {
+			if _, isString := value.(string); value != nil && !isString {
+				return fmt.Errorf("field %q must be a string, got %v", field, value)
+			}
+		}
+	}
 	rcvJSON, _ := json.Marshal(newData)
 	origJSON, _ := json.Marshal(origData)
 	// updateJSON deletes null-ed fields from origData, so remember its fields for the counters.
@@ -1459,7 +1467,9 @@ func (d *Data) storeAndUpdate(ctx *datastore.VersionedCtx, keyStr string, newDat
 			mdb.fields[field]++
 			if strings.HasSuffix(field, "_time") {
 				rootField := field[:len(field)-5]
-				mdb.fieldTimes[rootField] = newData[field].(string)
+				if timestamp, isString := newData[field].(string); isString {
+					mdb.fieldTimes[rootField] = timestamp
+				}
 			}
 		}
 		mdb.addBodyID(bodyid)
